@@ -322,6 +322,12 @@ def load_field(tkey, datum, strict):
                 return False, None
             out[kk] = v
         return True, out
+    if tkey == "enum":
+        from .models import Tone
+        for m in Tone:
+            if type(datum) is str and datum == m.value:
+                return True, m
+        return False, None
     if tkey == "nested":
         if not _is_mapping(datum):
             return False, None
@@ -434,6 +440,8 @@ def default_of(spec, idx):
 # dumping
 
 def dump_field(tkey, value):
+    if tkey == "enum":
+        return value.value
     if tkey == "nested":
         return {"n": value.n}
     if tkey in ("listint", "listdv"):
